@@ -3,7 +3,6 @@ package main
 import (
 	"fmt"
 	"go/types"
-	"sort"
 	"strings"
 
 	"golang.org/x/tools/go/ssa"
@@ -153,90 +152,22 @@ func lenFixedByFacts(lenX *Lin, facts []Fact) bool {
 }
 
 func checkC01(c *Ctx, r *Report) {
-	r.Explanation = "Decided: the fixed-width scalar contract on every path from the signing and verification entry points into the scalar-multiplication layer — the 'r, s or (r+s) mod n with leading zero bytes' class and the 'neither call panics' clause as far as slice lengths cause the panic. VARLEN: no result of (*big.Int).Bytes() (a minimal-length encoding) reaches a fixed-width-demanding parameter (computed, not tabulated: a parameter that is indexed without a dominating length guard, or forwarded to one) unless a dominating guard pins its length; L-RET: r and s returned by SignHashed are 32 bytes on the success return; L-IDX: no index or slice expression in sm2, sm2/internal, utils whose length set has a member that definitely fails the bound; plus the signer/verifier wiring that makes leading-zero values flow through the 32-byte padding helper (canonical expressions of C02/C03). NOT decided: that the verifier's equation accepts the signer's output (algebra over 2^256 values)."
-	r.Trusted = []string{"go/ssa", "(*big.Int).Bytes() returns a minimal-length encoding (any length from 0 up)"}
+	r.Explanation = "Decided on the outcomes of a path-by-path interpretation of SignHashed and VerifyHashed in the protocol domain (checker/proto*.go): PRECONDITIONS - every scalar handed to the scalar-multiplication layer or to the fixed-width comparison is exactly 32 bytes long on its path, every value written with a fixed width fits it, every point whose coordinates are used is finite (this is the 'r, s or (r+s) mod n with leading zero bytes' class: a minimal-length encoding reaching a fixed-width consumer violates it); SIGN-WIDTH - r and s are returned as 32-byte big-endian encodings; the signer's and the verifier's value rules (the same obligations as C02 / C03: s = (1+d)^-1 (k - r d) mod n on one side, ((e + x([s]G + [r+s]P)) mod n) == r on the other), which are the two halves of the round trip; L-IDX: no index or slice expression in sm2, sm2/internal, utils, fiat whose length set has a member that definitely fails the bound. NOT decided: the final algebraic step that composes the two halves ([s]G + [r+s][d]G = [k]G needs the group law, C14/C15)."
+	r.Trusted = []string{"go/ssa", "contracts summarised in checker/proto2.go", "(*big.Int).Bytes() returns a minimal-length encoding (any length from 0 up)"}
 	p, err := LoadRepo(c.Repo, "amd64")
 	if err != nil {
 		r.Fatalf("%v", err)
 		return
 	}
-	f := NewFolder(p)
-	dem := computeDemanding(p)
-	var demNames []string
-	for fn, m := range dem {
-		for i := range m {
-			demNames = append(demNames, p.FuncName(fn)+"#"+fn.Params[i].Name())
-		}
-	}
-	sort.Strings(demNames)
-	r.Count("demanding_params", len(demNames))
-	r.Note("fixed-width-demanding parameters (computed): %s", strings.Join(demNames, ", "))
-	// VARLEN
-	for _, fn := range p.RepoFuncs() {
-		if len(fn.Blocks) == 0 {
-			continue
-		}
-		env := NewLinEnv(p, fn)
-		for _, b := range fn.Blocks {
-			for _, in := range b.Instrs {
-				call, ok := in.(*ssa.Call)
-				if !ok {
-					continue
-				}
-				cal := call.Call.StaticCallee()
-				if cal == nil || cal.String() != "(*math/big.Int).Bytes" {
-					continue
-				}
-				r.Count("big_bytes_sites", 1)
-				ps := newPathSym(p, fn, f)
-				ps.WalkTo(b)
-				recvName := ps.S(call.Call.Args[0])
-				key := fmt.Sprintf("%s: Int.Bytes(%s)", p.FuncName(fn), recvName)
-				if isFoldedConst(recvName) {
-					r.Ok("VARLEN", key, p.InstrPos(call), "receiver is a resolved constant: its encoding length is fixed")
-					continue
-				}
-				bad := varlenUses(p, env, call, dem, 0)
-				r.Check(len(bad) == 0, "VARLEN", key, p.InstrPos(call), "minimal-length encoding flows only into length-tolerant sinks (len, left-pad copy, append, SetBytes, hash Write, range loop, or a use under a dominating length guard)"+ifs(len(bad) > 0, ": "+strings.Join(bad, "; ")))
-			}
-		}
-	}
-	// L-RET of the signer (same rule as C02)
-	if fn := p.MustFunc(r, "sm2.SignHashed"); fn != nil {
-		env := NewLinEnv(p, fn)
-		env.lenSum = func(c2 *ssa.Function, call2 *ssa.Call, en *LinEnv) ([]*Lin, bool) { return retLenSummary(p, c2, 0, call2, en, 0) }
-		for _, b := range fn.Blocks {
-			if ret, ok := b.Instrs[len(b.Instrs)-1].(*ssa.Return); ok && isNilConst(retVals(ret)[2]) {
-				for i, nm := range []string{"r", "s"} {
-					ls, ok := env.Len(retVals(ret)[i])
-					r.Check(ok && len(ls) == 1 && ls[0].IsConst() && ls[0].C == 32, "L-RET", "sm2.SignHashed "+nm+" is 32 bytes", p.InstrPos(ret), fmt.Sprintf("length set %v", linStrs(ls)))
-				}
-			}
-		}
-	}
-	// the verifier hands t to the scalar multiplication through the 32-byte padding (expression of C03)
-	if fn := p.MustFunc(r, "sm2.VerifyHashed"); fn != nil {
-		for _, b := range fn.Blocks {
-			for _, in := range b.Instrs {
-				if call, ok := in.(*ssa.Call); ok && call.Call.StaticCallee() != nil && call.Call.StaticCallee().Name() == "ScalarMixedMult_Unsafe" {
-					env := NewLinEnv(p, fn)
-					env.lenSum = func(c2 *ssa.Function, call2 *ssa.Call, en *LinEnv) ([]*Lin, bool) { return retLenSummary(p, c2, 0, call2, en, 0) }
-					facts := env.FactsAt(b)
-					for _, ai := range []int{0, 2} {
-						ls, ok := env.Len(call.Call.Args[ai])
-						fixed := ok && len(ls) == 1 && (ls[0].IsConst() && ls[0].C == 32 || lenFixedByFacts(ls[0], facts))
-						r.Check(fixed, "FIXED-WIDTH-ARG", fmt.Sprintf("sm2.VerifyHashed -> ScalarMixedMult_Unsafe#%s", call.Call.StaticCallee().Params[ai].Name()), p.InstrPos(call), fmt.Sprintf("scalar argument has length %v under the dominating guards (32 required by the window schedule)", linStrs(ls)))
-					}
-				}
-			}
-		}
-	}
+	protoSignHashed(r, p)
+	protoVerifyHashed(r, p)
 	// d = n-2 is a valid key: d+1 = n-1 must be accepted by the scalar decoder SignHashed uses (its error is ignored there)
-	c03ScalarDecoderOnly(r, p, f)
+	if ps := newProtoSpecMode(r, p, "sm2/internal/fiat.(*SM2ScalarElement).SetBytes", false); ps != nil {
+		ps.specElemDecode("N")
+	}
 	lidx(r, p, []string{"sm2", "sm2/internal", "utils", "sm2/internal/fiat"})
-	r.Floor("big_bytes_sites", 8)
-	r.Floor("demanding_params", 5)
 	r.Floor("index_exprs", 300)
+	r.Floor("protocol_paths", 30)
 }
 
 func isFoldedConst(s string) bool {
